@@ -76,7 +76,9 @@ def run_config(cfg, strategy=None, want_choices=False):
                 ev(ev='crash', exc='an optional attachment that was not configured is not None')
             for k, t in enumerate(targets):
                 o = getattr(self, attname[t])
-                ev(ev='attach', u=name, t=t, inited=bool(getattr(o, 'initModuleDone', False)))
+                # got: the module the attribute really gives (a mandatory attachment never resolves to nothing)
+                ev(ev='attach', u=name, t=t, inited=bool(getattr(o, 'initModuleDone', False)),
+                   got=getattr(o, 'name', '') or '')
 
         def __init__(self, *a, **k):
             if fail == 'create':
@@ -169,8 +171,15 @@ def run_config(cfg, strategy=None, want_choices=False):
                 for ch in children:
                     yield ch, child_cfg(ch)
             body['scanModules'] = scanModules
-            return type('L_' + name, (Pinata,), body)
-        return type('L_' + name, (Module,), body)
+            return fix_targets(type('L_' + name, (Pinata,), body), name, targets, attname)
+        return fix_targets(type('L_' + name, (Module,), body), name, targets, attname)
+
+    def fix_targets(cls, name, targets, attname):
+        # cfg['fixed']: the attachments of these modules are not given in the configuration but fixed by a subclass
+        # with bare class attributes (`class Sub(Base): io = 'name'`)
+        if name in cfg.get('fixed', []) and targets:
+            return type(cls.__name__ + '_fixed', (cls,), {attname[t]: t for t in targets})
+        return cls
 
     def attkey(name, k, t):
         h = cfg.get('host', {}).get(name, name)
@@ -178,8 +187,9 @@ def run_config(cfg, strategy=None, want_choices=False):
 
     def child_cfg(name):
         c = {'cls': make_class(name), 'description': name}
-        for k, t in enumerate(cfg['att'].get(name, [])):
-            c[attkey(name, k, t)] = t
+        if name not in cfg.get('fixed', []):
+            for k, t in enumerate(cfg['att'].get(name, [])):
+                c[attkey(name, k, t)] = t
         if name in cfg.get('writes', []):
             c['w'] = {'value': 1.0}
         return c
@@ -190,8 +200,9 @@ def run_config(cfg, strategy=None, want_choices=False):
         if name in dynamic:
             continue        # created by its pinata while the node scans for modules
         c = {'cls': make_class(name), 'description': name}
-        for k, t in enumerate(cfg['att'].get(name, [])):
-            c[attkey(name, k, t)] = t
+        if name not in cfg.get('fixed', []):
+            for k, t in enumerate(cfg['att'].get(name, [])):
+                c[attkey(name, k, t)] = t
         if name in cfg.get('writes', []):
             c['w'] = {'value': 1.0}
         if name not in cfg.get('exported', cfg['order']):
